@@ -48,12 +48,42 @@ static void check_doc(Ctx &ctx, Choices *c, const std::string &text, int D, cons
 	size_t lo = 0, hi = 0;
 	if (!accept && !first_too_deep(ref, D, lo, hi))
 		ctx.fail("HARNESS", "no too-deep value found although max depth " + str(ref.max_depth) + " > " + str(D - 1));
-	for (int pass = 0; pass < 2; pass++)
+	for (int pass = 0; pass < 3; pass++)
 	{
 		POut r;
 		std::string how = "one-shot";
 		if (pass == 0)
 			r = parse_fresh(text, 0, D, true);
+		else if (pass == 2)
+		{
+			// a tokener that has already been used: a first document that fills the level stack (or overruns it, or
+			// stops half-way), a reset, then this document - the limit must still be exactly D
+			if (!c)
+				break;
+			int wl;
+			switch (c->pickn(4))
+			{
+			case 0: wl = D - 1; break;                     // the scalar sits at the deepest allowed level
+			case 1: wl = D + (int)c->pickn(4); break;      // refused
+			case 2: wl = (int)c->range(0, (uint64_t)D - 1); break;
+			default: wl = D; break;                        // refused at the innermost value
+			}
+			std::string warm = std::string((size_t)wl, '[') + "1";
+			bool closed = c->coin(70);
+			if (closed)
+				warm += std::string((size_t)wl, ']');
+			json_tokener *tok = json_tokener_new_ex(D);
+			POut w = parse_call(tok, warm, true);
+			if ((wl <= D - 1) != (w.err != json_tokener_error_depth))
+			{
+				json_tokener_free(tok);
+				ctx.fail("warmup", "D=" + str(D) + ": a document of " + str(wl) + " nested arrays gave " + w.show_());
+			}
+			json_tokener_reset(tok);
+			r = parse_call(tok, text, true);
+			json_tokener_free(tok);
+			how = "reused tokener (after " + str(wl) + " nested arrays" + (closed ? "" : ", unclosed") + " and a reset)";
+		}
 		else
 		{
 			if (!c || text.size() < 2)
